@@ -147,3 +147,120 @@ _loop_mod = lambda E, Lc: [("heap", "_model")]  # noqa
 REG.add(Contract(MR, "Reaction.copy", "C12", [("self", TRef("Reaction"))], [Case("any", ensures=_rc_post)], pre=_rc_pre,
                  key="Reaction.copy", result=deepcopy_result, modifies=lambda E: [("heap", "_model")],
                  loops={0: LoopSpec(_inv_clear, _loop_mod), 1: LoopSpec(_inv_restore, _loop_mod)}))
+
+
+# ---------------------------------------------------------------- C12: Model.__setstate__ (deepcopy / pickle re-attach the members)
+# After unpickling / deep-copying, every reaction, gene, metabolite and group of the restored lists points at the restored model
+# (the `_model` pointers are blanked by Object.__getstate__), the attributes of the state are installed, and - when a solver came
+# with the state - every reaction's solver variables again encode its bounds (infinite bounds do not survive optlang's
+# serialisation; range lemma of C01).
+from . import c01_lp as C1  # noqa
+from pyvc.values import ident_of  # noqa
+MMOD = "cobra/core/model.py"
+_SS_LISTS = ("reactions", "genes", "metabolites", "groups")
+
+
+def _ss_state(with_solver):
+    def mk(st, name):
+        from pyvc.state import alloc_obj
+        items = []
+        for y, cls in zip(_SS_LISTS, ("Reaction", "Gene", "Metabolite", "Group")):
+            st, dl = TDictList(cls).make(st, f"state_{y}")
+            items.append((y, dl))
+        if with_solver:
+            st, sol = TObj("Solver", {}).make(st, "state_solver")
+            items.append(("_solver", sol))
+        else:
+            items.append(("_solver", NONE))
+        st, tol = TReal().make(st, "state_tolerance")
+        items.append(("_tolerance", tol))
+        st, nm = TStr().make(st, "state_name")
+        items.append(("name", nm))
+        st, o = alloc_obj(st, "dict", {"pure": True, "pyitems": tuple(items)})
+        return st, VObj(o.oid, "dict", "dict")
+    return mk
+
+
+def _ss_items(E):
+    return dict(E.s0.objs[E["state"].oid]["pyitems"])
+
+
+def _ss_members_point_here(E, st, upto=None):
+    """every element of the (first `upto`) restored lists points at the restored model"""
+    me = ident_of(E["self"].oid)
+    mo = Hh(E, st, "_model")
+    cs = []
+    for y in _SS_LISTS[:upto]:
+        n, e = L(E.s0, _ss_items(E)[y])
+        j = qv("sj")
+        cs.append(FA([j], z3.Implies(z3.And(0 <= j, j < n), mo[e[j]] == me), patterns=[mo[e[j]]]))
+    return z3.And(*cs)
+
+
+def _ss_inv_members(E, Lc):
+    """inner loop `for x in getattr(self, y, [])` (one source loop, run once per list): what pointed here at loop entry still does,
+    and the elements handled so far do"""
+    me = ident_of(E["self"].oid)
+    mo, mo_in = Hh(E, Lc.st, "_model"), Hh(E, Lc.entry, "_model")
+    x, j = qv("ix", Ref), qv("ij")
+    return z3.And(FA([x], z3.Implies(mo_in[x] == me, mo[x] == me), patterns=[mo[x]]),
+                  FA([j], z3.Implies(z3.And(0 <= j, j < Lc.i), mo[unwrap(Lc.seq.get(Lc.st, j), "ref")] == me)))
+
+
+def _ss_rxn_ok(E, st, r):
+    return C1.range_lemma(E, st, st, r)
+
+
+def _ss_inv_bounds(E, Lc):
+    n, e = L(E.s0, _ss_items(E)["reactions"])
+    j = qv("bj")
+    return z3.And(_ss_members_point_here(E, Lc.st),
+                  FA([j], z3.Implies(z3.And(0 <= j, j < Lc.i), _ss_rxn_ok(E, Lc.st, e[j])), patterns=[e[j]]))
+
+
+def _ss_post(with_solver):
+    def post(E):
+        rec = E.s1.objs[E["self"].oid]
+        it = _ss_items(E)
+        cs = [_ss_members_point_here(E, E.s1)]
+        cs.append(z3.BoolVal(all(rec.get("attr:" + k) is v for k, v in it.items() if k != "_tolerance")))   # state installed
+        if with_solver:
+            n, e = L(E.s0, it["reactions"])
+            j = qv("pj")
+            cs.append(FA([j], z3.Implies(z3.And(0 <= j, j < n), _ss_rxn_ok(E, E.s1, e[j])), patterns=[e[j]]))
+        return z3.And(*cs)
+    return post
+
+
+def _ss_pre(E):
+    """the reactions that come with the state are distinct objects with valid bounds (lb <= ub, lb < inf, ub > -inf) and two distinct
+    solver variables each"""
+    n, e = L(E.s0, _ss_items(E)["reactions"])
+    j, j2 = qv("qj"), qv("qj2")
+    lbk, lbv = Hh(E, E.s0, "_lower_bound")
+    ubk, ubv = Hh(E, E.s0, "_upper_bound")
+    from pyvc.values import xr_le
+    x = qv("qx", Ref)
+    lb, ub = VReal(lbk[x], lbv[x]), VReal(ubk[x], ubv[x])
+    y = qv("qy", Ref)
+    return z3.And(FA([x], z3.And(xr_le(lb, ub), lb.k != 1, ub.k != -1, C1.vars_distinct(x)), patterns=[lbk[x]]),
+                  FA([j], z3.Implies(z3.And(0 <= j, j < n), e[j] != NULL), patterns=[e[j]]),
+                  # the solver variables of different reactions are different objects (distinct reaction ids; reverse_id injective)
+                  FA([x, y], z3.Implies(x != y, z3.And(C1.fwd(x) != C1.fwd(y), C1.fwd(x) != C1.rev(y), C1.rev(x) != C1.rev(y))),
+                     patterns=[z3.MultiPattern(C1.fwd(x), C1.fwd(y)), z3.MultiPattern(C1.fwd(x), C1.rev(y)),
+                               z3.MultiPattern(C1.rev(x), C1.rev(y))]))
+
+
+REG.add(Contract(MMOD, "Model.tolerance@setter", "C12", [("self", TRef("Model")), ("value", TReal())], [Case("any")], assumed=True,
+                 key="Model.tolerance@setter",
+                 note="writes the three optlang tolerances of the solver configuration and self._tolerance; touches no cobra object"))
+_ss_cases = []
+for _ws in (True, False):
+    _c = Case("with_solver" if _ws else "without_solver", ensures=_ss_post(_ws))
+    _c.params_override = {"state": TCustom(_ss_state(_ws))}
+    _ss_cases.append(_c)
+REG.add(Contract(MMOD, "Model.__setstate__", "C12", [("self", TObj("Model", {})), ("state", TRef("dict"))], _ss_cases,
+                 pre=_ss_pre, key="Model.__setstate__",
+                 modifies=lambda E: [("heap", "_model"), ("heap", "var_lb"), ("heap", "var_ub"), ("obj", E["self"])],
+                 loops={1: LoopSpec(_ss_inv_members, lambda E, Lc: [("heap", "_model")]),
+                        2: LoopSpec(_ss_inv_bounds, lambda E, Lc: [("heap", "var_lb"), ("heap", "var_ub")])}))
